@@ -7,40 +7,10 @@ TRUSTED_COMMON = [
     'Go runtime/stdlib and third-party libraries are modelled, not verified (DESIGN.md section 4)',
 ]
 
-PROPS = {
-    'C01': dict(
-        harness='c01', props='Props/C01.v', models=['Model/Latch.v'],
-        trusted=['ingester and FormatReader enter the theorems as Section variables (any behaviour); '
-                 'the built-in classification tables are extracted from the seven IsContinuableError bodies',
-                 'validity of the JSON bytes is json.Marshal output (stdlib), asserted on every returned slice by the harness'],
-        assumptions=['ing_raw_on_success: an ingester returns a raw record whenever it reports success '
-                     '(proved for the built-in ingester; required of caller-supplied ones)'],
-    ),
-    'C11': dict(
-        harness='c11', props='Props/C11.v', models=['Base/Tree.v', 'Model/Nav.v'],
-        trusted=['antchfx/xpath v1.1.11 (the expression engine) enters the theorems as an arbitrary deterministic program over the '
-                 'NodeNavigator interface (free structure prog: observe / move / Copy / MoveTo over a register file of navigators); '
-                 'the engine itself is run, not modelled, by the end-to-end comparison',
-                 'reference binding antchfx/xmlquery v1.3.1: navigator transcribed from query.go; its parser output is normalised by the '
-                 'harness to the XPath data model (DeclarationNode removed, CharDataNode retyped TextNode) and the two navigator '
-                 'defects of the reference (Value() of the document node is "", MoveToRoot() keeps the attribute index) are excluded '
-                 'by the named guard ref_ok and demonstrated by the _refuted theorems',
-                 'XML tokenisation (encoding/xml) and the construction of both trees are outside C11 (C08); every case checks that the '
-                 'tree idr.NewXMLStreamReader built equals to_idr of the DOM'],
-        assumptions=['dom_wfb: only element nodes carry attributes (XML)',
-                     'scope: documents without comment / processing-instruction nodes (the IDR does not represent them)',
-                     'ref_ok: the execution on the reference performs neither Value() on the document node nor MoveToRoot() on an '
-                     'attribute position (xmlquery v1.3.1 defects Q1/Q2; on both the IDR follows the XPath data model)',
-                     'namespace prefixes are compared as strings (xpath v1.1.11 name tests use Prefix(), not the namespace URI); each URI '
-                     'bound to one prefix in generated documents (guard of known finding F11, which both parsers share)'],
-    'C08': dict(
-        harness='c08', props='Props/C08.v', models=['Model/Json.v', 'Model/Xml.v'],
-        trusted=['encoding/json Decoder.Token and encoding/xml Decoder.Token/RawToken are modelled as the token stream determined by the document (jtokens / xtokens, incl. the namespace translation of encoding/xml); the harness reads the same text with its own decoder and the model is compared against that stream on every case',
-                 'strconv.FormatFloat(v,\'f\',-1,64) / ParseFloat enter the theorems as Section variables; the harness supplies them as a table computed with strconv and asserts the round trip on every number',
-                 'the partially built idr.Node tree is modelled as the stack of open nodes (append-only construction; justified by the C12 refinement to the abstract tree)'],
-        assumptions=['jwf: object keys pairwise distinct at every level (duplicate keys are folded into an array by the converter; encoding/json keeps the last)',
-                     'float_roundtrip: strconv.ParseFloat(strconv.FormatFloat(v,\'f\',-1,64)) = v for the numbers of the value (asserted by the harness on every number)',
-                     'ns_wf (xml_prefix_in_scope only): Namespaces-in-XML well-formedness of the names used (prefixes bound in scope to non-empty URIs, xmlns/xml not redeclared, no URI literally "xmlns", no prefixed attribute / unprefixed element named "xmlns")',
-                     'uri_single_prefix (xml_prefix_in_scope only): no namespace URI is bound to two different prefixes in the document - known finding F11 outside it (xml_prefix_refuted)'],
-    ),
-}
+import glob as _glob, os as _os
+
+# One file per property: bin/props.d/<ID>.py holds a single dict expression with the keys
+# harness, props, models, trusted, assumptions (and optionally harness_timeout).
+PROPS = {}
+for _f in sorted(_glob.glob(_os.path.join(_os.path.dirname(_os.path.abspath(__file__)), 'props.d', 'C*.py'))):
+    PROPS[_os.path.basename(_f)[:-3]] = eval(open(_f).read())
